@@ -272,7 +272,7 @@ func (m *model) judge(s *snap, r *Recovered) *verdict {
 			}
 		}
 		switch {
-		case len(s.Cont) > 0 && strings.Contains(r.Out, "snappy"):
+		case len(s.Cont) > 0 && (strings.Contains(r.Out, "snappy") || strings.Contains(r.Out, "replay transaction group data") && strings.Contains(firstLine(r.Out), "EOF")):
 			d := fmt.Sprintf("%s: restart failed, index and data of variable-length file %v disagree: %s", where, s.Cont, firstLine(r.Out))
 			v.add(&v.C03, "known", "F-CONT", d)
 			c01("known", "F-CONT", d)
